@@ -334,6 +334,12 @@ impl Future for GateFut {
             if (self.key as usize) < world.ops.len() {
                 world.ops[self.key as usize].waiting_gate = if r.is_pending() { Some(self.g) } else { None };
             }
+        } else {
+            let world = w();
+            let st = ((self.key >> 16) & 0x7fff) as usize;
+            if st < world.streams.len() {
+                world.streams[st].item_waiting_gate = if r.is_pending() { Some(self.g) } else { None };
+            }
         }
         r
     }
@@ -796,6 +802,93 @@ impl Drop for PipeProbe {
         st.closure_drops += 1;
         if st.closure_dropped_at.is_none() {
             st.closure_dropped_at = Some(s);
+        }
+    }
+}
+
+/// The input of a pipe: a stream driven by the environment, or (a chain) the output stream of an earlier pipe.
+pub enum PipeInput {
+    Sim(SimStream),
+    Chain { inner: Option<desync::pipe::PipeStream<u64>>, s: usize, from: usize },
+}
+
+fn chain_input(s: usize, from: Option<usize>) -> Option<PipeInput> {
+    match from {
+        None => Some(PipeInput::Sim(SimStream { s })),
+        Some(from) => {
+            let world = w();
+            if from >= world.outs.len() {
+                return None;
+            }
+            let inner = world.outs[from].stream.take()?;
+            world.cover.chained_pipes += 1;
+            Some(PipeInput::Chain { inner: Some(inner), s, from })
+        }
+    }
+}
+
+impl futures::Stream for PipeInput {
+    type Item = u32;
+    fn poll_next(self: Pin<&mut Self>, cx: &mut Context<'_>) -> Poll<Option<u32>> {
+        match self.get_mut() {
+            PipeInput::Sim(st) => Pin::new(st).poll_next(cx),
+            PipeInput::Chain { inner, s, from } => {
+                let (s, from) = (*s, *from);
+                rt::kernel::point();
+                let r = match inner.as_mut() {
+                    Some(i) => Pin::new(i).poll_next(cx),
+                    None => Poll::Ready(None),
+                };
+                match r {
+                    Poll::Ready(Some(v)) => {
+                        // what the earlier pipe's output yields is what this pipe's input "pushes"
+                        ev("out", from as i64, v as i64);
+                        let item = v as u32;
+                        ev("push", s as i64, item as i64);
+                        let world = w();
+                        world.outs[from].outputs.push(v);
+                        world.outs[from].depth_dirty = false;
+                        world.streams[s].pushed.push(item);
+                        world.streams[s].polls += 1;
+                        Poll::Ready(Some(item))
+                    }
+                    Poll::Ready(None) => {
+                        ev("out_end", from as i64, 0);
+                        ev("close", s as i64, 0);
+                        let world = w();
+                        world.outs[from].ended = true;
+                        world.streams[s].closed = true;
+                        world.streams[s].ended_seen = true;
+                        Poll::Ready(None)
+                    }
+                    Poll::Pending => {
+                        w().cover.stream_pending += 1;
+                        Poll::Pending
+                    }
+                }
+            }
+        }
+    }
+}
+
+impl Drop for PipeInput {
+    fn drop(&mut self) {
+        if let PipeInput::Chain { inner, s, from } = self {
+            if !rt::kernel::in_sim() {
+                std::mem::forget(inner.take());
+                return;
+            }
+            // the earlier pipe's output stream goes away here: from now on that pipe owes its own shutdown
+            let sq = ev("out_dropped", *from as i64, 0);
+            w().outs[*from].dropped_at = Some(sq);
+            drop(inner.take());
+            ev("out_drop_done", *from as i64, 0);
+            let sq = ev("stream_dropped", *s as i64, 0);
+            let st = &mut w().streams[*s];
+            st.drops += 1;
+            if st.dropped_at.is_none() {
+                st.dropped_at = Some(sq);
+            }
         }
     }
 }
@@ -1282,8 +1375,8 @@ pub fn exec_op(op: &Op) {
                 other => put_handle(h, other),
             }
         }
-        OpKind::PipeIn { o, s, body } => {
-            let (o, s, body) = (*o, *s, body.clone());
+        OpKind::PipeIn { o, s, body, from } => {
+            let (o, s, body, from) = (*o, *s, body.clone(), *from);
             let d = match obj(o) {
                 Some(d) => d,
                 None => return skip(id),
@@ -1297,11 +1390,15 @@ pub fn exec_op(op: &Op) {
                 world.streams[s].obj = Some(o);
                 world.streams[s].pipe_op = Some(id);
             }
+            let input = match chain_input(s, from) {
+                Some(i) => i,
+                None => return skip(id),
+            };
             let b = call_begin(id);
             let probe = PipeProbe(s);
             let d2 = d.clone();
             let r = catch_unwind(move || {
-                pipe_in(d2, SimStream { s }, move |val: &mut Val, item: u32| -> BoxFuture<'_, ()> {
+                pipe_in(d2, input, move |val: &mut Val, item: u32| -> BoxFuture<'_, ()> {
                     let _keep = &probe;
                     let idx = next_item_index(s, item);
                     BodyFut::new(val, o, item_key(s, item as usize), body.clone(), 0, None, Some((s, idx))).map(|_| ()).boxed()
@@ -1313,8 +1410,8 @@ pub fn exec_op(op: &Op) {
             });
             release(o, d);
         }
-        OpKind::Pipe { o, s, depth, out, body } => {
-            let (o, s, depth, out, body) = (*o, *s, *depth, *out, body.clone());
+        OpKind::Pipe { o, s, depth, out, body, from } => {
+            let (o, s, depth, out, body, from) = (*o, *s, *depth, *out, body.clone(), *from);
             let d = match obj(o) {
                 Some(d) => d,
                 None => return skip(id),
@@ -1328,11 +1425,15 @@ pub fn exec_op(op: &Op) {
                 world.streams[s].obj = Some(o);
                 world.streams[s].pipe_op = Some(id);
             }
+            let input = match chain_input(s, from) {
+                Some(i) => i,
+                None => return skip(id),
+            };
             let b = call_begin(id);
             let probe = PipeProbe(s);
             let d2 = d.clone();
             let r = catch_unwind(move || {
-                let mut ps = pipe(d2, SimStream { s }, move |val: &mut Val, item: u32| -> BoxFuture<'_, u64> {
+                let mut ps = pipe(d2, input, move |val: &mut Val, item: u32| -> BoxFuture<'_, u64> {
                     let _keep = &probe;
                     let idx = next_item_index(s, item);
                     BodyFut::new(val, o, item_key(s, item as usize), body.clone(), out_value(item), None, Some((s, idx))).boxed()
